@@ -203,7 +203,8 @@ def process_unit(name, canary, bdir):
             ur.status = 'undecided'
             ur.reason = 'canary extraction: %s' % e
             return ur
-    cmd, r, js, wall = run_verus(path, externs)
+    vo = unit.get('verify_only')  # a unit that carries one extra obligation on top of another unit's text: verify that function only
+    cmd, r, js, wall = run_verus(path, externs, extra=(('--verify-root', '--verify-function', vo) if vo else ()))
     ur.cmd = ' '.join(cmd)
     ur.wall = wall
     ur.stderr = r.stderr
@@ -217,6 +218,8 @@ def process_unit(name, canary, bdir):
     ur.verified = vr.get('verified', 0)
     ur.errors = vr.get('errors', 0)
     ur.groups = fn_breakdown(js)
+    if vo:
+        ur.groups = {g: v for g, v in ur.groups.items() if g.split('::')[-1] == vo}
     ur.smt_ms = sum(g.get('time', 0) for g in ur.groups.values())
     if vr.get('encountered-vir-error') or (vr.get('encountered-error') and not ur.groups):
         ur.status = 'undecided'
@@ -480,6 +483,7 @@ def verdict(prop, tier, seed, pdef, results, extra, wall):
             k = [x for x in known if x['prop'] == prop and x['obligation'] == e['obligation']]
             if k:
                 lines.append('KNOWN-FINDING: property=%s %s (%s)' % (prop, e['obligation'], k[0]['what']))
+                ev['coverage'].setdefault('known_findings', []).append(dict(obligation=e['obligation'], what=k[0]['what'], verifier_output=e.get('text', '')[:2000]))
             else:
                 new.append((ur, e))
         if new:
